@@ -142,7 +142,7 @@ def check_state(rb, ref, queries=True):
         return [(c[k] if c.get(k) is not None else fill) for k in range(a, b)]
 
     # stored content through the full window
-    for fill in (FILL, math.nan):
+    for fill in (FILL, 0.0, math.nan):
         full = tolist(rb.window(None, None, fill_value=fill))
         if not same(full, content_list(ov, ref.newest + 1, fill)) and not same(full, content_list(ov, nv + 1, fill)):
             return ("full_window_is_stored_content", {"got": full, "expected": content_list(ov, ref.newest + 1, fill)})
@@ -166,7 +166,7 @@ def check_state(rb, ref, queries=True):
     for qa, qb in itertools.product(grid, grid):
         if qb < qa:
             continue
-        for fill in (FILL,):
+        for fill in ((FILL, 0.0) if (qa, qb) == (grid[0], grid[-1]) else (FILL,)):
             w = tolist(rb.window(ts(ref.align) + qa * U, ts(ref.align) + qb * U, fill_value=fill))
             fa, fb = qa / P, qb / P
             los = {math.floor(fa), math.ceil(fa)}
